@@ -9,9 +9,10 @@ file-system effects of a DiskStorage operation, from which a FRESH DiskStorage /
  * does not attempt it (with exactly those recipients) once a fresh Queue runs over it.
 
 How crash states are produced: ONE un-killed run of the history executes the real
-DiskStorage; the harness substitutes the module-level names the module performs its
-file-system effects through (slimta.diskstorage.mkstemp, .aio_write, .os -> proxy whose
-rename/remove/unlink/open-for-write are wrapped, .uuid -> deterministic stand-in) and
+DiskStorage; for its duration the harness wraps the file-system effects at their home modules
+(os.rename/replace/unlink/remove/link/open-for-writing/truncate/write, builtins.open for writing,
+tempfile.mkstemp, pyaio.aio_write -- by effect, whatever name the module calls them by; uuid ->
+deterministic stand-in when the module has it) and
 captures the complete contents of the three directories before and after every effect.
 The process has no other durable state, so "killed before/after effect k" == "that tree".
 The equivalence is cross-checked by really killing child processes with SIGKILL:
@@ -20,7 +21,8 @@ The equivalence is cross-checked by really killing child processes with SIGKILL:
  (b) from outside, at an instant no instrumentation chose, while the child runs the history with the
      module's own mkstemp/aio_write/os/uuid and journals op start/ack on a pipe: the surviving tree is
      recovered against the fold of the journal;
-and by effect accounting (sequential histories: the tree changes only across instrumented effects).
+and by effect accounting (sequential histories: the tree changes only across instrumented effects;
+an escaping effect makes the history inconclusive and is decided by 40 outside SIGKILLs).
 
 Histories are direct storage calls or are produced by the real Queue (enqueue + scripted relay double).
 
@@ -49,6 +51,9 @@ import subprocess
 import signal
 import select
 import time
+import io
+import uuid as _uuid_module
+import builtins
 
 import gevent
 from gevent.event import Event
@@ -60,6 +65,19 @@ from slimta.relay import Relay, TransientRelayError, PermanentRelayError
 from slimta.envelope import Envelope
 
 from vf import core
+
+try:
+    import pyaio as _pyaio
+except ImportError:          # pragma: no cover
+    _pyaio = None
+
+# the harness's own file access never goes through the (temporarily wrapped) public names
+_real_open = builtins.open
+_os_write = os.write
+_os_kill = os.kill
+_os_listdir = os.listdir
+_os_unlink = os.unlink
+_os_readlink = os.readlink
 
 PROPERTY = 'C04'
 LEVEL = 'fault_enumeration'
@@ -115,10 +133,18 @@ ASSUMPTIONS = [
     'outside the statement and out of reach)',
     'the only durable state of DiskStorage is the content of env_dir, meta_dir, tmp_dir (checked by the real-kill '
     'cross-check: surviving tree == capture k, tmp files compared by content)',
-    'every durable effect of the module goes through mkstemp, aio_write, os.rename, os.remove/unlink or a writing '
-    'os.open as looked up in slimta.diskstorage; an effect performed through another name is reported by the '
-    'effect accounting of the sequential histories (equivalence/durable-effect-outside-instrumentation), its '
-    'intermediate states are not enumerated (the outside-SIGKILL stratum hits them only by chance)',
+    'instrumentation is by effect, not by name: for the duration of a history os.rename/replace/link/symlink/'
+    'unlink/remove/open-for-writing/truncate/write, builtins.open / io.open for writing (file object proxied: '
+    'write/flush/close are capture points), tempfile.mkstemp and pyaio.aio_write are wrapped at their home modules '
+    '(and where slimta.diskstorage bound them by value); only targets inside env/meta/tmp are capture points. '
+    'A durable effect that still escapes (seen by the effect accounting of the sequential histories) makes that '
+    'history INCONCLUSIVE for the snapshot stratum -- a blind spot of the harness is not a defect of slimta -- and '
+    '40 outside SIGKILLs inside the operation concerned decide: a violation is reported only for a really '
+    'surviving tree that loses or damages an acknowledged message',
+    'ids: the deterministic stand-in is installed only when the module has a `uuid` global; otherwise (e.g. '
+    '`secrets.token_hex`) the forced collision is skipped and the capture-point kill compares file contents instead '
+    'of names and takes its expectation from the killed child\'s own journal (counters say so); nothing in '
+    'REQUIRED_HITS depends on the id source',
     'operations on ONE message are never concurrent with each other (one greenlet per message; the real Queue is '
     'observed to respect this: counter same-message-operations-overlapped); concurrent '
     'read-modify-write of one meta file is another property',
@@ -156,6 +182,7 @@ BUDGET = {'quick': 60, 'thorough': 700}
 NHIST = {'quick': 32, 'thorough': 608}
 NQHIST = {'quick': 8, 'thorough': 160}     # histories driven by the real Queue (h >= NHIST)
 NKILLS = {'quick': 1, 'thorough': 3}      # SIGKILL at an instrumented point (sequential histories)
+NESCAPE_KILLS = 40                         # per history with an effect the instrumentation did not see
 NAKILLS = {'quick': 1, 'thorough': 2}     # SIGKILL from outside at an un-instrumented instant (all modes)
 PY = '/venv/bin/python'
 DIRS = ('env', 'meta', 'tmp')
@@ -318,9 +345,9 @@ def read_tree(root):
     for d in DIRS:
         dd = {}
         p = os.path.join(root, d)
-        for fn in sorted(os.listdir(p)):
+        for fn in sorted(_os_listdir(p)):
             try:
-                with open(os.path.join(p, fn), 'rb') as f:
+                with _real_open(os.path.join(p, fn), 'rb') as f:
                     dd[fn] = f.read()
             except (FileNotFoundError, IsADirectoryError):
                 pass
@@ -334,12 +361,12 @@ def write_tree(tree, root):
     for d in DIRS:
         p = os.path.join(root, d)
         if os.path.isdir(p):
-            for fn in os.listdir(p):
-                os.unlink(os.path.join(p, fn))
+            for fn in _os_listdir(p):
+                _os_unlink(os.path.join(p, fn))
         else:
             os.makedirs(p)
         for fn, data in tree[d].items():
-            with open(os.path.join(p, fn), 'wb') as f:
+            with _real_open(os.path.join(p, fn), 'wb') as f:
                 f.write(data)
 
 
@@ -359,13 +386,15 @@ def tree_summary(tree):
     return out
 
 
-def trees_equal(a, b):
-    """names + bytes for env/meta; tmp files (random names) by content multiset."""
+def trees_equal(a, b, by_name=True):
+    """names + bytes for env/meta (contents only when the ids of the two runs are not the same ones);
+    tmp files (random names) by content multiset."""
     diffs = []
     for d in ('env', 'meta'):
-        if a[d] != b[d]:
+        same = (a[d] == b[d]) if by_name else (sorted(a[d].values()) == sorted(b[d].values()))
+        if not same:
             diffs.append('%s: snapshot %s vs killed %s' % (
-                d, {k: len(v) for k, v in a[d].items()}, {k: len(v) for k, v in b[d].items()}))
+                d, sorted(len(v) for v in a[d].values()), sorted(len(v) for v in b[d].values())))
     if sorted(a['tmp'].values()) != sorted(b['tmp'].values()):
         diffs.append('tmp: snapshot sizes %s vs killed sizes %s' % (
             sorted(len(v) for v in a['tmp'].values()), sorted(len(v) for v in b['tmp'].values())))
@@ -393,22 +422,24 @@ class Tracer(object):
         self.n = 0
         self.snaps = []
         self.ctx = {}
+        self.nest = 0             # >0 while the original of a wrapped effect runs (nested wrappers pass through)
+        self.notes = {}
 
     def current(self):
         return self.ctx.get(gevent.getcurrent())
 
     def journal(self, *rec):
         if self.journal_fd is not None:
-            os.write(self.journal_fd, (core.jdumps(list(rec)) + '\n').encode())
+            _os_write(self.journal_fd, (core.jdumps(list(rec)) + '\n').encode())
 
     def boundary(self, phase, effect, target):
         k = self.n
         self.n += 1
-        if self.journal_fd is not None:
+        if self.journal_fd is not None and self.kill_at is None:
             return
         if self.kill_at is not None:
             if k == self.kill_at:
-                os.kill(os.getpid(), signal.SIGKILL)
+                _os_kill(os.getpid(), signal.SIGKILL)
                 time.sleep(60)          # never reached: SIGKILL is delivered on return from kill()
                 os._exit(4)
             return
@@ -434,6 +465,7 @@ class FakeUuid(object):
         self.tag, self.n, self.collide = tag, 0, collide
         self.acked_ids = []
         self.collisions = 0
+        self.installed = False     # True when slimta.diskstorage draws its ids from `uuid` (substitutable)
 
     def uuid4(self):
         if self.collide and self.acked_ids and self.collisions == 0:
@@ -445,101 +477,205 @@ class FakeUuid(object):
 
 def _target_of(root, path):
     try:
+        if isinstance(path, int):
+            path = _os_readlink('/proc/self/fd/%d' % path)
+        path = os.fsdecode(os.fspath(path))
         rel = os.path.relpath(os.path.abspath(path), root)
-    except ValueError:
+    except (ValueError, TypeError, OSError):
         return 'other'
     top = rel.split(os.sep)[0]
     return top if top in DIRS else 'other'
 
 
-class OsProxy(object):
-    """Stands in for the name `os` inside slimta.diskstorage only."""
+_WRITING = os.O_WRONLY | os.O_RDWR | os.O_CREAT | os.O_TRUNC | os.O_APPEND
 
-    def __init__(self, tracer):
-        self._t = tracer
+
+class FileProxy(object):
+    """A file object opened for writing inside the storage directories: its write / flush / truncate /
+    close are capture points (the data of a buffered file becomes durable at one of them)."""
+
+    def __init__(self, f, bracket, tgt):
+        object.__setattr__(self, '_f', f)
+        object.__setattr__(self, '_b', bracket)
+        object.__setattr__(self, '_tgt', tgt)
 
     def __getattr__(self, name):
-        return getattr(os, name)
+        return getattr(self._f, name)
 
-    def rename(self, a, b):
-        t, op = self._t, self._t.current()
-        tgt = _target_of(t.root, b)
-        t.boundary('before', 'rename', tgt)
-        r = os.rename(a, b)
-        t.effect_done(op)
-        t.boundary('after', 'rename', tgt)
-        return r
+    def __setattr__(self, name, value):
+        setattr(self._f, name, value)
 
-    replace = rename
+    def write(self, data):
+        return self._b('file-write', self._tgt, self._f.write, data)
 
-    def remove(self, p):
-        t, op = self._t, self._t.current()
-        tgt = _target_of(t.root, p)
-        t.boundary('before', 'remove', tgt)
-        r = os.remove(p)           # raises if absent: then no effect happened, no 'after'
-        t.effect_done(op)
-        t.boundary('after', 'remove', tgt)
-        return r
+    def writelines(self, lines):
+        return self._b('file-write', self._tgt, self._f.writelines, lines)
 
-    unlink = remove
+    def flush(self):
+        return self._b('file-flush', self._tgt, self._f.flush)
 
-    def open(self, path, flags, *a, **kw):
-        if not flags & (os.O_WRONLY | os.O_RDWR | os.O_CREAT | os.O_TRUNC | os.O_APPEND):
-            return os.open(path, flags, *a, **kw)
-        t, op = self._t, self._t.current()
-        tgt = _target_of(t.root, path)
-        t.boundary('before', 'open-w', tgt)
-        r = os.open(path, flags, *a, **kw)
-        t.effect_done(op)
-        t.boundary('after', 'open-w', tgt)
-        return r
+    def truncate(self, *a):
+        return self._b('file-truncate', self._tgt, self._f.truncate, *a)
 
-
-class Installed(object):
-    """Substitutes the module-level names of slimta.diskstorage; always restored."""
-
-    def __init__(self, tracer, chunk, fake_uuid, light=False):
-        self.t, self.chunk, self.fu, self.light = tracer, chunk, fake_uuid, light
+    def close(self):
+        if self._f.closed:
+            return None
+        return self._b('file-close', self._tgt, self._f.close)
 
     def __enter__(self):
-        t = self.t
-        self.saved = (D.mkstemp, D.aio_write, D.os, D.uuid, D.AioFile.chunk_size)
-        if self.light:
-            # journal child: the module runs with its own mkstemp / aio_write / os / uuid
-            D.AioFile.chunk_size = self.chunk
-            return self
-        o_mkstemp, o_aio_write = D.mkstemp, D.aio_write
-
-        def mkstemp(*a, **kw):
-            op = t.current()
-            t.boundary('before', 'mkstemp', 'tmp')
-            r = o_mkstemp(*a, **kw)
-            t.effect_done(op)
-            t.boundary('after', 'mkstemp', 'tmp')
-            return r
-
-        def aio_write(fd, piece, offset, cb):
-            op = t.current()
-            try:
-                tgt = _target_of(t.root, os.readlink('/proc/self/fd/%d' % fd))
-            except OSError:
-                tgt = 'other'
-            t.boundary('before', 'chunk', tgt)
-
-            def cb2(ret, errno):
-                # runs as a pending call at an arbitrary point of the main thread: no capture
-                # here; the state "after this chunk" is captured at the op's next boundary
-                if ret > 0:
-                    t.effect_done(op)
-                cb(ret, errno)
-            return o_aio_write(fd, piece, offset, cb2)
-
-        D.mkstemp, D.aio_write, D.os, D.uuid = mkstemp, aio_write, OsProxy(t), self.fu
-        D.AioFile.chunk_size = self.chunk
         return self
 
     def __exit__(self, *exc):
-        D.mkstemp, D.aio_write, D.os, D.uuid, D.AioFile.chunk_size = self.saved
+        self.close()
+        return False
+
+    def __iter__(self):
+        return iter(self._f)
+
+
+class Installed(object):
+    """Makes every durable file-system effect of the traced region a capture point -- BY EFFECT, not by the
+    name slimta.diskstorage happens to use: for the duration of the history the public entry points
+    os.rename/replace/link/symlink/unlink/remove/open(for writing)/truncate/write, builtins.open / io.open
+    (for writing; the returned file object is proxied), tempfile.mkstemp and pyaio.aio_write are wrapped at
+    their home modules, and any global of slimta.diskstorage that is bound to one of the originals
+    (`from os import rename`) is re-bound too. Only paths / descriptors inside the three storage
+    directories are capture points. Everything is restored on exit. A stand-in is installed only for
+    what exists: no `uuid` global -> ids are not reproducible (see FakeUuid.installed)."""
+
+    def __init__(self, tracer, chunk, fake_uuid, light=False):
+        self.t, self.chunk, self.fu, self.light = tracer, chunk, fake_uuid, light
+        self.undo = []
+
+    def _put(self, obj, name, new):
+        self.undo.append((obj, name, getattr(obj, name)))
+        setattr(obj, name, new)
+
+    def _bracket(self, kind, tgt, orig, *a, **kw):
+        t = self.t
+        if t.nest or tgt == 'other':
+            return orig(*a, **kw)
+        op = t.current()
+        t.boundary('before', kind, tgt)
+        t.nest += 1
+        try:
+            r = orig(*a, **kw)          # raises: no effect happened, no 'after'
+        finally:
+            t.nest -= 1
+        t.effect_done(op)
+        t.boundary('after', kind, tgt)
+        return r
+
+    def _wrappers(self):
+        t, root, br = self.t, self.t.root, self._bracket
+        w = {}
+
+        def by_path(kind, orig, which):
+            def f(*a, **kw):
+                tgt = _target_of(root, a[which]) if (len(a) > which and not t.nest) else 'other'
+                return br(kind, tgt, orig, *a, **kw)
+            w[orig] = f
+        for name, kind, which in (('rename', 'rename', 1), ('replace', 'rename', 1), ('link', 'link', 1),
+                                  ('symlink', 'link', 1), ('unlink', 'remove', 0), ('remove', 'remove', 0),
+                                  ('truncate', 'truncate', 0), ('ftruncate', 'truncate', 0),
+                                  ('write', 'write', 0), ('pwrite', 'write', 0), ('writev', 'write', 0)):
+            if hasattr(os, name) and getattr(os, name) not in w:
+                by_path(kind, getattr(os, name), which)
+
+        o_open = os.open
+
+        def os_open(path, flags, *a, **kw):
+            tgt = _target_of(root, path) if (flags & _WRITING and 'dir_fd' not in kw and not t.nest) else 'other'
+            return br('open-w', tgt, o_open, path, flags, *a, **kw)
+        w[o_open] = os_open
+
+        o_bopen = builtins.open
+
+        def b_open(file, mode='r', *a, **kw):
+            writing = isinstance(mode, str) and any(c in mode for c in 'wax+')
+            if t.nest or not writing:
+                return o_bopen(file, mode, *a, **kw)
+            tgt = _target_of(root, file)
+            if tgt == 'other':
+                return o_bopen(file, mode, *a, **kw)
+            if isinstance(file, int):
+                # wraps an already open descriptor (os.fdopen): no effect by itself
+                return FileProxy(o_bopen(file, mode, *a, **kw), br, tgt)
+            return FileProxy(br('open-w', tgt, o_bopen, file, mode, *a, **kw), br, tgt)
+        w[o_bopen] = b_open
+
+        o_mkstemp = tempfile.mkstemp
+
+        def mkstemp(*a, **kw):
+            d = kw.get('dir', a[2] if len(a) > 2 else None)
+            tgt = _target_of(root, os.path.join(os.fsdecode(d), 'x')) if d else 'other'
+            return br('mkstemp', tgt, o_mkstemp, *a, **kw)
+        w[o_mkstemp] = mkstemp
+
+        if _pyaio is not None:
+            o_aio_write = _pyaio.aio_write
+
+            def aio_write(fd, piece, offset, cb):
+                op = t.current()
+                tgt = _target_of(root, fd)
+                if tgt != 'other':
+                    t.boundary('before', 'chunk', tgt)
+
+                def cb2(ret, errno):
+                    # runs as a pending call at an arbitrary point of the main thread: no capture
+                    # here; the state "after this chunk" is captured at the op's next boundary
+                    if ret > 0 and tgt != 'other':
+                        t.effect_done(op)
+                    cb(ret, errno)
+                return o_aio_write(fd, piece, offset, cb2)
+            w[o_aio_write] = aio_write
+        return w
+
+    def __enter__(self):
+        t = self.t
+        af = getattr(D, 'AioFile', None)
+        if af is not None and hasattr(af, 'chunk_size'):
+            self._put(af, 'chunk_size', self.chunk)
+        else:
+            t.notes['aio-chunk-size-not-lowerable'] = 1
+        self.fu.installed = False
+        if self.light:
+            # journal child: the module runs with its own mkstemp / aio_write / os / uuid
+            return self
+        if getattr(D, 'uuid', None) is _uuid_module:
+            self._put(D, 'uuid', self.fu)
+            self.fu.installed = True
+        w = self._wrappers()
+        homes = [(os, ('rename', 'replace', 'link', 'symlink', 'unlink', 'remove', 'truncate', 'ftruncate',
+                       'write', 'pwrite', 'writev', 'open')),
+                 (builtins, ('open',)), (io, ('open',)), (tempfile, ('mkstemp',))]
+        if _pyaio is not None:
+            homes.append((_pyaio, ('aio_write',)))
+            core_ = getattr(_pyaio, 'core', None)
+            if core_ is not None and hasattr(core_, 'aio_write'):
+                homes.append((core_, ('aio_write',)))
+        try:
+            for mod, names in homes:
+                for n in names:
+                    if hasattr(mod, n) and getattr(mod, n) in w:
+                        self._put(mod, n, w[getattr(mod, n)])
+            # names the module under test bound by value at import time
+            for n, v in list(vars(D).items()):
+                try:
+                    repl = w.get(v)
+                except TypeError:
+                    continue
+                if repl is not None:
+                    self._put(D, n, repl)
+        except BaseException:
+            self.__exit__()
+            raise
+        return self
+
+    def __exit__(self, *exc):
+        while self.undo:
+            obj, name, old = self.undo.pop()
+            setattr(obj, name, old)
         return False
 
 
@@ -1346,6 +1482,12 @@ def _run_case(case, R, where):
         R.inconclusive('an operation raised in the un-killed run: ' + core.short('; '.join(problems), 200))
     if fu.collisions:
         R.count('forced-uuid-collisions', fu.collisions)
+    if not fu.installed:
+        # e.g. ids drawn from `secrets`: everything that works from ACKNOWLEDGED ids is kept; what needs the
+        # same ids in the parent and in a killed child (file-name comparison, forced collision) is skipped
+        R.count('histories-without-reproducible-id-source(name comparison + forced collision skipped)')
+    for k_, v_ in tracer.notes.items():
+        R.count(k_, v_)
     R.count('histories-' + case['mode'])
     for k_, v_ in fu.store.notes.items():
         R.count(k_, v_)
@@ -1372,25 +1514,27 @@ def _run_case(case, R, where):
                 R.violation('enqueue-returned-id-the-storage-never-acknowledged',
                             'Queue.enqueue returned %r for message m%d; DiskStorage.write acknowledged %r'
                             % (id_, m_, sorted(fu.store.by_id)), {'enqueued': relay.enqueued})
+    unaccounted = None
     if case['mode'] == 'seq':
         # effect accounting: between two capture points of a sequential history the tree may change only
-        # across an instrumented effect.  A change elsewhere = a durable effect performed through a name the
-        # harness does not wrap: the crash states inside it are NOT enumerated (and the instrumented
-        # real-kill child shares the blind spot), so this is reported loudly instead of silently missed.
+        # across an instrumented effect.  A change elsewhere = a durable effect performed through a path the
+        # harness does not see.  That is a blind spot of the instrumentation, NOT a defect of slimta: the
+        # history is inconclusive for the snapshot stratum and the real-kill stratum decides (below).
         R.hit('effect-accounting-checked')
         for a, b in zip(snaps, snaps[1:]):
             if a['phase'] != 'before' and a['tree'] != b['tree']:
                 changed = sorted('%s/%s' % (d, fn) for d in DIRS
                                  for fn in set(a['tree'][d]) | set(b['tree'][d])
                                  if a['tree'][d].get(fn) != b['tree'][d].get(fn))
-                opk = b['op'].kind if b['op'] else (a['op'].kind if a['op'] else 'idle')
-                R.violation('equivalence/durable-effect-outside-instrumentation/%s/%s' % (
-                                opk, '+'.join(sorted(set(c.split('/')[0] for c in changed)))),
-                            'HARNESS EQUIVALENCE: the directory tree changed between capture points k=%d (%s) and '
-                            'k=%d (%s) with no instrumented effect in between; crash states inside that effect '
-                            'are not enumerated' % (a['k'], crash_label(a), b['k'], crash_label(b)),
-                            {'changed_files': changed[:8], 'before': tree_summary(a['tree']),
-                             'after': tree_summary(b['tree'])})
+                op_ = b['op'] or a['op']
+                unaccounted = op_
+                R.count('histories-with-an-effect-outside-instrumentation')
+                R.inconclusive('effect outside instrumentation: %s changed %s between capture points (%s) and '
+                               '(%s) with no instrumented effect in between; crash states inside it are not '
+                               'enumerated, %d outside SIGKILLs inside that operation decide instead'
+                               % (op_.kind if op_ else 'idle',
+                                  '+'.join(sorted(set(c.split('/')[0] for c in changed))),
+                                  crash_label(a), crash_label(b), NESCAPE_KILLS))
                 break
 
     seen, seen2 = set(), set()
@@ -1445,12 +1589,17 @@ def _run_case(case, R, where):
     if case['mode'] == 'seq' and not problems:
         for frac in case.get('kills', []):
             k = min(len(snaps) - 1, int(frac * len(snaps)))
-            real_kill(case, k, snaps[k], R, where)
+            real_kill(case, k, snaps[k], R, where, same_ids=fu.installed)
     # ---- SIGKILL from outside at an instant no instrumentation chose (every mode)
     if not problems:
         nstarts = sum(1 for s in snaps if s['phase'] == 'op' and s['effect'] == 'start')
         for frac, dfrac in case.get('akills', []):
             async_kill(case, 1 + min(nstarts - 1, int(frac * nstarts)), R, where, delay=0.03 * dfrac)
+        if unaccounted is not None:
+            # the operation that showed the unaccounted effect, killed for real at spread instants
+            for i in range(NESCAPE_KILLS):
+                R.count('outside-sigkills-inside-an-operation-with-unaccounted-effect')
+                async_kill(case, unaccounted.seq + 1, R, where, delay=0.025 * i / NESCAPE_KILLS)
 
 
 def _kill_dirs(case, where):
@@ -1464,34 +1613,61 @@ def _kill_dirs(case, where):
     return kdir, kroot, cfile
 
 
-def real_kill(case, k, s, R, where):
+def real_kill(case, k, s, R, where, same_ids=True):
     """The child runs the same instrumented history and sends itself SIGKILL inside capture point k."""
     kdir, kroot, cfile = _kill_dirs(case, where)
     try:
         p = subprocess.run([PY, os.path.abspath(__file__), '--child', cfile, kroot, str(k)],
-                           timeout=120, stdout=subprocess.PIPE, stderr=subprocess.STDOUT)
+                           timeout=120, stdout=subprocess.PIPE, stderr=subprocess.PIPE)
     except subprocess.TimeoutExpired:
         R.inconclusive('real-kill child timed out')
         return
     if p.returncode != -signal.SIGKILL:
         R.inconclusive('real-kill child did not die of SIGKILL at the kill point (rc=%s): %s'
-                       % (p.returncode, p.stdout[-200:].decode('utf-8', 'replace')))
+                       % (p.returncode, p.stderr[-200:].decode('utf-8', 'replace')))
         return
     R.eval()
     killed = read_tree(kroot)
     R.hit('real-kill-compared')
     R.count('real-kills')
-    diffs = trees_equal(s['tree'], killed)
+    expect = s['expect']
+    if not same_ids:
+        # the child drew other ids: compare file CONTENTS, take the expectation from the child's own journal
+        R.count('real-kills-compared-by-content(ids differ between the runs)')
+        expect = fold_journal(case, p.stdout)[0]
+    diffs = trees_equal(s['tree'], killed, by_name=same_ids)
     if diffs:
         R.violation('equivalence/real-kill-tree-differs-from-snapshot/' + crash_label(s),
                     'HARNESS EQUIVALENCE (not a slimta defect by itself): tree surviving a real SIGKILL at '
                     'capture point k=%d differs from capture k' % k,
                     {'k': k, 'crash_point': crash_label(s), 'diffs': diffs,
                      'snapshot': tree_summary(s['tree']), 'killed': tree_summary(killed)})
-    found = recover(killed, s['expect'], case, R, where)
+    found = recover(killed, expect, case, R, where)
     if found:
-        report(R, case, dict(s, tree=killed), found, 'real-kill')
+        report(R, case, dict(s, tree=killed, expect=expect), found, 'real-kill')
     shutil.rmtree(kdir, ignore_errors=True)
+
+
+def fold_journal(case, buf):
+    """Expectation from a child's op start/ack journal: acknowledged lines count, a started operation
+    without acknowledgement is in flight."""
+    model = new_model(case)
+    lines = buf.split(b'\n')[:-1]                # a torn last line is no acknowledgement
+    finished = False
+    for ln in lines:
+        rec = core.jdec(json.loads(ln.decode()))
+        if rec[0] == 'done':
+            finished = True
+            continue
+        _, seq, m, kind, arg = rec[:5]
+        st = model[m]
+        if rec[0] == 'start':
+            st['inflight'] = [kind, arg]
+        elif rec[0] == 'ack':
+            model_ack(st, kind, arg, rec[5])
+        else:
+            st['state'], st['inflight'] = 'unknown', None
+    return copy_model(model), finished
 
 
 def async_kill(case, nth_start, R, where, delay=0.0):
@@ -1538,23 +1714,7 @@ def async_kill(case, nth_start, R, where, delay=0.0):
         R.inconclusive('async-kill child did not die of SIGKILL (rc=%s)' % p.returncode)
         shutil.rmtree(kdir, ignore_errors=True)
         return
-    model = new_model(case)
-    lines = buf.split(b'\n')[:-1]                # a torn last line is no acknowledgement
-    finished = False
-    for ln in lines:
-        rec = core.jdec(json.loads(ln.decode()))
-        if rec[0] == 'done':
-            finished = True
-            continue
-        _, seq, m, kind, arg = rec[:5]
-        st = model[m]
-        if rec[0] == 'start':
-            st['inflight'] = [kind, arg]
-        elif rec[0] == 'ack':
-            model_ack(st, kind, arg, rec[5])
-        else:
-            st['state'], st['inflight'] = 'unknown', None
-    expect = copy_model(model)
+    expect, finished = fold_journal(case, buf)
     killed = read_tree(kroot)
     inflight = sorted(st['inflight'][0] for st in expect if st['inflight'])
     R.eval()
@@ -1582,7 +1742,7 @@ def child_main(argv):
     with open(argv[0]) as f:
         case = core.jdec(json.load(f))
     root, k = argv[1], int(argv[2])
-    tracer = Tracer(root, kill_at=k)
+    tracer = Tracer(root, kill_at=k, journal_fd=1)
     model = new_model(case)
     t = gevent.Timeout(90)
     t.start()
